@@ -99,6 +99,11 @@ CHECKS = {
   text="Decided: InsecureSkipVerify is set only where a VerifyPeerCertificate callback is installed on every path; that callback can return nil only as the result of x509 Verify on the parsed leaf with Roots from a RootCAs pool, DNSName = bundle host, Intermediates only from the presented chain, CurrentTime zero or time.Now() evaluated inside the callback, parse errors returned; the per-node SNI is the serverName parameter (contact point / host id); the bundle config has checked bundle-CA roots, the bundle key pair and ServerName = bundle host and is only ever Clone()d; Connect hands only a handshaken tls.Client to the CQL connection on TLS endpoints and aborts on a handshake error.",
   note="Trusted: crypto/x509, crypto/tls, the clock. Not covered: certificate contents.",
   ref="DESIGN.md §4 C19"),
+ "C10": dict(
+  technique="static analysis: table agreement between advertised column metadata and value producers (syntax tree + type info), canonical-name provenance, selector cardinality shapes, structural row-construction rules, constant-mask check, length-abstraction simulation of buildNodes",
+  text="Structural parts only (token arithmetic, value equality with the configuration and cross-proxy agreement are numeric/run-time facts and are not decided): every advertised column of system.local/peers (plain and DSE) has a producer whose encoded datatype is wire-compatible with the advertised type; the parsed table name is the case-folded identifier and tables/arms are keyed lower-case; every selector yields as many values as columns; system.local is one row, system.peers one row per non-local node with count = nodes-1, self-entries in the peer list are dropped; host ids are MD5 name-based UUIDs of the node's own address with version-3/variant bits; when tokens are calculated no path adds a peer without running the token assignment.",
+  note="Not covered: evenly spaced/distinct/ordered tokens, values equal to configuration, agreement between independently started proxies, count() values.",
+  ref="DESIGN.md §4 C10"),
 }
 
 NOT_YET = "check not built yet in this round (see DESIGN.md §4 for the planned structural rules)"
